@@ -174,6 +174,30 @@ def rules_and_layouts(viol):
         if got != fm.UNITS.Unit("m"):
             viol.append(f"after connect the relay's input reports units {got} although its source delivers m: a rule on the output slot (units={out_units}) changed the info exchanged on the input slot")
             return n
+    # (a2) the same with a field rule from a second input: [FromInput("In"), FromInput("In2", ["units"])]
+    # (a3) adapters answer a request for metadata without changing the request: a consumer whose grid conflicts with what the
+    #      adapter delivers is refused, whatever the adapter does with its copy of the request
+    for aname, mk_adapter, src_grid in (("GridToValue", lambda: fm.adapters.GridToValue(np.mean), fm.UniformGrid((4, 3))),
+                                        ("Scale", lambda: fm.adapters.Scale(2.0), fm.NoGrid())):
+        for cons_grid, conflict in ((fm.UniformGrid((5, 4)), True), (fm.NoGrid(1), True), (fm.NoGrid(), False)):
+            n += 1
+            out = fm.Output("o", fm.Info(time=T0, grid=src_grid, units="m"))
+            req = fm.Info(time=T0, grid=cons_grid, units="m")
+            inp = fm.Input("i", req)
+            out >> mk_adapter() >> inp
+            inp.ping()
+            tag = f"Output({type(src_grid).__name__}) >> {aname} >> Input(grid={cons_grid.__class__.__name__}{getattr(cons_grid, 'dim', '')})"
+            try:
+                inp.exchange_info()
+                ok = True
+            except fm.FinamMetaDataError:
+                ok = False
+            except Exception as e:  # noqa
+                viol.append(f"exchange raised {type(e).__name__}: {str(e)[:80]}: {tag}")
+                return n
+            if ok == conflict:
+                viol.append(f"a consumer whose grid {'conflicts with' if conflict else 'matches'} the delivered one was {'accepted' if ok else 'refused'}: {tag}")
+                return n
     # (b) fixed masks across layouts
     shape = (4, 3)                                     # cells of UniformGrid((5, 4))
     m = np.zeros(shape, dtype=bool)
